@@ -339,7 +339,7 @@ def run(ctx):
                 "equinoxes/solstices, 15% year boundaries and the ends of the range, 15% on the hour for every hour, "
                 "5% epoch/leap-day, plus the instants where the implementation's own ecliptic longitude crosses an odd "
                 "multiple of pi) x lon in [-360,360] x lat in [-90,90] (25% boundary values), as float64 arrays and as "
-                "scalars with datetime / datetime64; sub-solar and antipodal points of the Almanac sun and of the "
+                "scalars with datetime / datetime64; one time-array object advanced in place between queries (4 steps of 1-200 days); sub-solar and antipodal points of the Almanac sun and of the "
                 "implementation's own sun; distinct = distinct (representation, instant, lon, lat)")
     ctx.assumptions += [
         "oracle = the Astronomical Almanac low-precision solar formulas (L, g, lambda, epsilon, alpha, delta, R) with hour angle from the IAU-1982 GMST, "
@@ -406,6 +406,39 @@ def run(ctx):
         ll = [rand_lonlat(rng) for _ in eq]
         run_batch(ctx, astronomy, eq, [a for a, _ in ll], [b for _, b in ll], "array", ["code-equinox"] * len(eq))
         run_batch(ctx, astronomy, eq[:20], [a for a, _ in ll[:20]], [b for _, b in ll[:20]], "datetime64", ["code-equinox"] * 20)
+    # ONE time-array object (and one lon / lat array object) reused over a time-stepping loop, advanced in place between
+    # queries: the answer must follow the arrays' contents, whatever the module was asked before; arguments stay untouched
+    for gi in range(ctx.n(6, 40)):
+        m = 4
+        us0 = rand_time(rng)[0]
+        ll = [rand_lonlat(rng) for _ in range(m)]
+        t = (np.array([us0 + k * 3600 * 10**6 for k in range(m)], dtype=np.int64)).astype("datetime64[us]")
+        lon = np.array([a for a, _ in ll], dtype=np.float64)
+        lat = np.array([b for _, b in ll], dtype=np.float64)
+        hist = []
+        for step_i in range(4):
+            us_now = [int(x) for x in t.astype("int64")]
+            if not (US_1950 <= us_now[0] and us_now[-1] < US_2051):
+                break
+            lon0, lat0 = lon.copy(), lat.copy()
+            try:
+                with common.time_limit(60):
+                    out = call_impl(astronomy, t, lon, lat)
+            except Exception as e:
+                ctx.violation("sun functions raised %s" % type(e).__name__,
+                              {"signature": "C06:raise:stepped:%s" % type(e).__name__, "utc": iso(us_now[0]), "error": str(e)[:300]})
+                break
+            if [int(x) for x in t.astype("int64")] != us_now or not np.array_equal(lon, lon0) or not np.array_equal(lat, lat0):
+                ctx.violation("a sun function modified its array arguments",
+                              {"signature": "C06:stepped:mutated:%s" % iso(us_now[0]), "utc": iso(us_now[0]), "steps_before": hist})
+                break
+            compare(ctx, us_now, list(lon0), list(lat0), out,
+                    "array (same object, advanced in place by %s)" % (" then ".join(hist) or "nothing yet"), ["stepped-%d" % step_i] * m)
+            for u, lo, la in zip(us_now, lon0, lat0):
+                ctx.case(("stepped", gi, step_i, u), {"utc": iso(u), "lon": float(lo), "lat": float(la), "rep": "array-stepped", "stratum": "stepped"})
+            days = rng.choice([1, 10, 30, 91, 200])
+            t += np.timedelta64(days, "D")
+            hist.append("%d d" % days)
     # sub-solar point and antipode
     subsolar(ctx, astronomy, [rand_time(rng)[0] for _ in range(n_sub)] + eq[:50], rng)
 
